@@ -83,6 +83,32 @@ fn reuse() {
 }
 star_stubs! { #[kani::unwind(5)] fn c03_keystream_reuse() { reuse() } }
 
+/// two payloads of two rate blocks under one key that differ in the first block: beyond
+/// the first block (the known finding D7) the keystreams differ, because the duplex state
+/// absorbed different ciphertext — so the ciphertext difference is *not* the plaintext
+/// difference there.  (Fresh oracle outputs differ within their first 16 bytes: positions
+/// 166..182.)
+fn reuse_second_block() {
+    let key: [u8; 16] = kani::any();
+    let d1: [u8; 182] = kani::any();
+    let d2: [u8; 182] = kani::any();
+    kani::assume(d1[9] != d2[9]);
+    ro_reset();
+    let c1 = sta_rs::Ciphertext::new(&key, &d1[..], "star_encrypt").to_bytes();
+    let c2 = sta_rs::Ciphertext::new(&key, &d2[..], "star_encrypt").to_bytes();
+    assert!(c1.len() == 182 && c2.len() == 182);
+    let mut all = true;
+    let mut i = 166;
+    while i < 182 {
+        all &= (c1[i] ^ c2[i]) == (d1[i] ^ d2[i]);
+        i += 1;
+    }
+    assert!(!all, "beyond the first rate block the ciphertext difference is not the plaintext difference");
+    kani::cover!(true, "reached");
+    core::mem::forget((c1, c2));
+}
+star_stubs! { #[kani::unwind(18)] fn c03_keystream_second_block() { reuse_second_block() } }
+
 /// `derive_ske_key(r, epoch)`: keys are equal iff (r, epoch) are equal — in particular a
 /// different epoch never yields the same key
 fn ske_sep(e1n: usize, e2n: usize) {
